@@ -322,8 +322,8 @@ func runCheck(spec *PropSpec, tier string, seed int, accept, verbose bool, overl
 		var retry []*Obligation
 		var retryIdx []int
 		for i, v := range vs {
-			if v.Status != "unknown" || v.Obl.Cover || accept {
-				continue
+			if v.Status != "unknown" || v.Obl.Cover || accept || os.Getenv("GOWP_NO_RETRY") != "" {
+				continue // (GOWP_NO_RETRY: the seeded-change scripts do not need the flakiness control)
 			}
 			if e, ok := ledger.Obligations[logicalName(v.Obl.Name)]; ok && e.Status == "discharged" {
 				o2 := *v.Obl
@@ -351,7 +351,7 @@ func runCheck(spec *PropSpec, tier string, seed int, accept, verbose bool, overl
 		}
 		// retry non-discharged queries once with a longer limit (flakiness control)
 		for i, v := range vs {
-			if v.Status == "unknown" && !v.Obl.Cover && v.Obl.TimeoutMs == 0 {
+			if v.Status == "unknown" && !v.Obl.Cover && v.Obl.TimeoutMs == 0 && os.Getenv("GOWP_NO_RETRY") == "" {
 				v2 := solveOne(g, v.Obl, filepath.Join(workDir, clean(lastN(k, 80))), timeout*3)
 				if v2.Status == "discharged" {
 					vs[i] = v2
